@@ -1083,6 +1083,62 @@ def result_table(E, s, meth, val, nr, lines):
     return z3.BoolVal(False)
 
 
+# ------------------------------------------------------------------ version / quit / shutdown
+
+def verify_public_admin(E, mode="exception"):
+    """Client.version / quit / shutdown: exactly one exchange with the fixed command text ('version', 'quit', 'shutdown[ graceful]'),
+    waiting for a reply iff the command has one (quit has none), Sync at the call and at every exit; version returns what follows
+    'VERSION ' on the reply line and raises for any other line with the connection still in sync; quit leaves the connection closed;
+    shutdown treats the server closing the connection as success."""
+    install_env(E, mode)
+    E.contracts[C + "._misc_cmd"] = misc_contract
+    cases = [("version", [], {}, "version\r\n", False), ("quit", [], {}, "quit\r\n", True),
+             ("shutdown", [BoolV(False)], {}, "shutdown\r\n", False), ("shutdown", [BoolV(True)], {}, "shutdown graceful\r\n", False)]
+    for meth, args, kwargs, text, nr in cases:
+        q = "%s.%s" % (C, meth)
+        for had_sock in (True, False):
+            E.case_suffix = "/%s%s" % ("live-socket" if had_sock else "no-socket", ",graceful" if "graceful" in text else "")
+            st = State()
+            set_faults(st, mode)
+            me, sock0 = mk_client(st, had_sock)
+            st.ghost["misc_calls"] = []
+            wid, sid, rid = pid(E, "wire", q), pid(E, "sync", q), pid(E, "result", q)
+
+            def at_call(E_, s, c, ncalls, text=text, nr=nr, q=q, wid=wid, sid=sid):
+                items = c["items"]
+                nrp = E_.truth(c["noreply"], s)
+                nrp = nrp if isinstance(nrp, bool) else (True if z3.is_true(z3.simplify(nrp)) else (False if z3.is_false(z3.simplify(nrp)) else None))
+                ok = ncalls == 1 and items is not None and len(items) == 1 and isinstance(items[0], BytesV) and nrp is nr
+                E_.oblige("%s/one-exchange-with-the-command-%r-%s%s" % (wid, text.strip(), "without-waiting" if nr else "waiting-for-its-reply", E_.case_suffix), s,
+                          z3.And(z3.BoolVal(bool(ok)), items[0].t == z3.StringVal(text)) if ok else z3.BoolVal(False), func=q)
+                E_.oblige("%s/Sync-at-exchange%s" % (sid, E_.case_suffix), s, c["sync_at_call"], func=q)
+            st.ghost["at_misc_call"] = at_call
+            for o in E.run_function(q, st, list(args), dict(kwargs), selfv=me):
+                s = o.st
+                calls = s.ghost["misc_calls"]
+                if len(calls) != 1:
+                    E.oblige("%s/exactly-one-exchange%s" % (wid, E.case_suffix), s, z3.BoolVal(False), func=q, meta={"exchanges": len(calls)})
+                    continue
+                E.oblige("%s/post@%s(Sync)%s" % (sid, o.kind, E.case_suffix), s, sync(E, s, me), func=q,
+                         meta={"raised": o.val.cls if o.kind == "raise" else None})
+                lines = s.ghost.get("reply_lines")
+                if meth == "quit" and o.kind == "return":
+                    E.oblige("%s/post@ret(connection-closed-and-dropped)%s" % (sid, E.case_suffix), s,
+                             z3.BoolVal(isinstance(s.heap[me.ref]["sock"], NoneV) and closed_all(s, sock0)), func=q)
+                if meth == "version" and lines:
+                    L0 = lines[0].t
+                    pre_ = z3.StringVal("VERSION ")
+                    if o.kind == "return":
+                        E.oblige("%s/post@ret(version:what-follows-'VERSION '-on-the-reply-line)%s" % (rid, E.case_suffix), s,
+                                 z3.Or(L0 == z3.Concat(pre_, o.val.t), z3.And(L0 == z3.StringVal("VERSION"), o.val.t == z3.StringVal("")))
+                                 if isinstance(o.val, BytesV) else z3.BoolVal(False), func=q)
+                    elif o.val.cls == "MemcacheUnknownError":
+                        E.oblige("%s/post@raise(version:only-for-a-line-that-is-not-'VERSION ...')%s" % (rid, E.case_suffix), s,
+                                 z3.And(z3.Not(z3.PrefixOf(pre_, L0)), L0 != z3.StringVal("VERSION")), func=q)
+    E.case_suffix = ""
+    E.contracts.pop(C + "._misc_cmd", None)
+
+
 # ------------------------------------------------------------------ delete_many
 
 def verify_delete_many(E, mode="exception"):
